@@ -69,6 +69,18 @@ class NoGet:
 glom_pkg.register(NoGet, get=False)
 
 
+_CodecError = type('Error', (ValueError,), {'__module__': 'codecmod'})
+_TableError = type('Error', (KeyError,), {'__module__': 'tablemod'})
+
+
+def _raise_codec_error(x):
+    raise _CodecError('bad padding')
+
+
+def _raise_table_error(x):
+    raise _TableError('no such table')
+
+
 def _double(x):
     return x * 2
 
@@ -135,6 +147,9 @@ def pool():
     tree = lambda: {'v': 1, 'kids': [{'v': 2, 'kids': []}, {'v': 3, 'kids': [{'v': 4, 'kids': []}]}]}
     add('ref-shared-1', tree, lambda: Ref('node', {'v': 'v', 'kids': ('kids', [_BARE_NODE])}))
     add('ref-shared-2', tree, lambda: Ref('node', {'n': ('kids', len), 'sub': ('kids', [_BARE_NODE])}))
+    # two different exception classes with the SAME __name__, raised by different specs of one process
+    add('same-named-error-1', data, lambda: ('a.d', _raise_codec_error))
+    add('same-named-error-2', data, lambda: ('a.d', _raise_table_error))
     add('spec', data, lambda: Spec(('a', 'd')))
     add('ref', lambda: {'v': 1, 'kids': [{'v': 2, 'kids': []}, {'v': 3, 'kids': [{'v': 4, 'kids': []}]}]},
         lambda: Ref('n', {'v': 'v', 'kids': ('kids', [Ref('n')])}))
@@ -211,6 +226,8 @@ def outcome_signature(o):
         except Exception as e:
             return ['value-unrenderable', type(e).__name__]
     cls, text = exc_sig(o.exc)
+    # (the class of an error is more than its name: which except clauses catch it)
+    cls = '%s%s' % (cls, [b.__module__.split('.')[0] + '.' + b.__name__ for b in type(o.exc).__mro__[1:-2]])
     # the list of registered types is part of the *registrations* the outcome may depend on
     text = re.sub(r'registered types: \([^)]*\)', 'registered types: (...)', text)
     return json.loads(json.dumps(['error', cls, text]))
